@@ -56,23 +56,32 @@ T = [
          text="depth 2 without arrays, struct{struct{scalar,scalar}, string}: " + COPY),
     dict(h=_h("copy_nest_arr"), id="C08.deep_copy.nested_array.post", props=["C08"], fn="Value::deep_copy", bounded=B,
          text="depth 2, array[array[scalar;1], array[scalar;1]]: " + COPY),
+    dict(h=_h("copy_mix_int_str", "copy_mix_job", "copy_mix_tuple"), id="C08.deep_copy.struct_mixed.post", props=["C08"],
+         fn="Value::deep_copy / StructObject::new", bounded=B,
+         text="records mixing scalar and heap fields in ONE struct - struct{Int, string}, struct{Int, array[Float;1], string} "
+              "(Job{id, items, label}), tuple{Bool, struct{string}}: " + COPY),
     dict(h=_h("copy_chan"), id="C08.deep_copy.channel.post", props=["C08", "C09"], fn="Value::deep_copy / ChannelObject::copy",
          bounded=B,
          text="channel: a NEW ChannelObject owned by B whose queue is the SAME queue (Arc::ptr_eq); a value written through the "
               "original is read through the copy"),
-    dict(h=_h("spawn_0", "spawn_scalar_struct_str", "spawn_str_struct", "spawn_var_scalar", "spawn_chan"),
+    dict(h=_h("spawn_0", "spawn_scalar_struct_str", "spawn_str_struct", "spawn_var_scalar", "spawn_mix_job", "spawn_chan"),
          id="C08.spawn.captures_copied", props=["C08"], fn="step arm SpawnTask", bounded=B + "; n <= 2 captures",
          text="SpawnTask(n, target): pops exactly n values (slot below untouched), spawner pc/heap list/heap_size unchanged; exactly "
               "one new thread is sent to the runtime: pc == target, stack == the n deep copies in the same order (model match, owned "
-              "by the new thread's heap, disjoint from the spawner's), stack_base 0, not done/no error; a captured channel shares the queue"),
+              "by the new thread's heap, disjoint from the spawner's), stack_base 0, not done/no error; a mutation of the first capture "
+              "by the spawner after the spawn (real arms) leaves the task's copy matching the model; one capture is a mixed "
+              "struct{Int, array, string}; a captured channel shares the queue"),
     dict(h=_h("spawn_arr_str"), id="C08.spawn.captures_copied.array", props=["C08"], fn="step arm SpawnTask / Value::deep_copy",
          bounded=B, text="same contract, captures (array[scalar;1], string) - the language reference's own example captures an array"),
-    dict(h=_h("fifo_one_scalar", "fifo_one_str_struct", "fifo_two_scalar", "fifo_two_str_struct"), id="C09.chan.write_read.fifo",
-         props=["C09"], fn="step arms ConstructChannel, ChannelWrite, ChannelRead / ChannelObject::{new,write_value,read_value}",
+    dict(h=_h("fifo_one_scalar", "fifo_one_str_struct", "fifo_one_mix_int_str", "fifo_two_scalar", "fifo_two_str_struct",
+              "fifo_two_mix_job"), id="C09.chan.write_read.fifo",
+         props=["C09", "C08"], fn="step arms ConstructChannel, ChannelWrite, ChannelRead / ChannelObject::{new,write_value,read_value}",
          bounded=B + "; histories write,write,read,read on one thread and writer A / reader B",
          text="each write consumes (channel, value) and appends one element; each read replaces the channel on the stack by a value and "
               "removes exactly one element; first read matches the model of the FIRST written value, second the SECOND; received values "
-              "are made only of objects allocated by that read in the reader's heap (disjoint from the writer's); writer undisturbed"),
+              "are made only of objects allocated by that read in the reader's heap (disjoint from the writer's); writer undisturbed; "
+              "a mutation of the received value on the reader (real arms) leaves the writer's value matching the model; payloads "
+              "include mixed records struct{Int, string} and struct{Int, array, string}"),
     dict(h=_h("fifo_two_arr"), id="C09.chan.write_read.fifo.array", props=["C09", "C08"], fn="step arm ChannelRead / Value::deep_copy",
          bounded=B, text="same contract with an array payload"),
     dict(h=_h("read_empty_suspends"), id="C09.chan.read_empty.suspends", props=["C09"], fn="step arm ChannelRead",
@@ -205,18 +214,18 @@ def _valgrind(src):
     return bad, p.stderr[:1500]
 
 
-def _copy_family():
-    """C08 on the real CLI: the first program of replay_programs.PROGS in which a mutation leaks between task and
-    spawner (or which crashes), else None."""
+def _copy_family(chan=False):
+    """C08 / C09 on the real CLI: the first program of replay_programs.PROGS (tasks) or CHAN_PROGS (channels, writer kept
+    alive) in which a mutation leaks between the two sides (or which crashes), else None."""
     from . import replay_programs
     ran = []
-    for name, src, want in replay_programs.PROGS:
+    for name, src, want in (replay_programs.CHAN_PROGS if chan else replay_programs.PROGS):
         out, err, rc = abra_cli.run_program(src)
         ran.append(name)
         if out != want or rc != 0:
             return True, dict(program=src, program_name=name, expected=want, real_output=(out + err)[:1200], exit_code=rc,
                               programs_run=ran, note="each side must print its own unmodified value")
-    return None, dict(note="every task/spawner program printed its own unmodified value", programs_run=ran)
+    return None, dict(note="every program printed the unmodified value on each side", programs_run=ran)
 
 
 def replay(ob):
@@ -232,6 +241,8 @@ def replay(ob):
                               note="the reference's array example runs correctly; no CLI program for an array payload in a channel")
     if ob.id.startswith("C08.deep_copy.") or ob.id.startswith("C08.spawn."):
         return _copy_family()
+    if ob.id == "C09.chan.write_read.fifo":
+        return _copy_family(chan=True)
     if ob.id == "C09.chan.write.ownership":
         out, err, rc = abra_cli.run_program(OWNERSHIP)
         extra = dict(program=OWNERSHIP, expected=OWNERSHIP_WANT, real_output=(out + err)[:1200], exit_code=rc)
